@@ -318,6 +318,15 @@ func TestVerifKeystore(t *testing.T) {
 				variants = append(variants, append(append(append([]byte{}, file[:pos]...), a), file[pos+1:]...))
 				kinds = append(kinds, "subst")
 			}
+			if c >= '0' && c <= '9' && !strings.Contains(locateStr(file, pos), "\"") {
+				// a bare JSON number (KDF parameters, version): every other digit, not only a random one
+				for d := byte('0'); d <= '9'; d++ {
+					if d != c {
+						variants = append(variants, append(append(append([]byte{}, file[:pos]...), d), file[pos+1:]...))
+						kinds = append(kinds, "subst")
+					}
+				}
+			}
 			if c != '"' && c != '{' && c != '}' && c != ':' && c != ',' {
 				variants = append(variants, append(append([]byte{}, file[:pos]...), file[pos+1:]...))
 				kinds = append(kinds, "delete")
@@ -337,6 +346,18 @@ func TestVerifKeystore(t *testing.T) {
 		}
 	}
 	fmt.Printf("VERIF-STAT events=%d\n", w.n)
+}
+
+// the JSON token around pos (up to the enclosing separators): contains a quote iff pos is inside a string
+func locateStr(file []byte, pos int) string {
+	i, j := pos, pos
+	for i > 0 && file[i-1] != ':' && file[i-1] != ',' && file[i-1] != '{' {
+		i--
+	}
+	for j < len(file) && file[j] != ',' && file[j] != '}' {
+		j++
+	}
+	return string(file[i:j])
 }
 
 func pbkdf2Key(pass, salt []byte, c, n int) []byte { return pbkdf2.Key(pass, salt, c, n, sha256.New) }
